@@ -588,34 +588,44 @@ def make_world(cfg):
     m.disk2 = m.snapshot_of(mat.files["alt"])
     bind = cfg["bind"]  # "none" | "file" | "new"
     m.autosave = bool(cfg.get("autosave"))
-    if bind == "none":
-        if malformed:
-            w.impl = klass(autosave=m.autosave, **kw)
-            try:
-                w.impl.load_string(init)
-                m.load_bytes(b"")  # tolerated: handled below
-                w.pending.append(("load_string:no_error:ValueError", "a malformed line was accepted by load_string"))
-            except ValueError:
-                pass
-            except Exception as e:  # noqa: BLE001
-                w.pending.append((f"load_string:raises:{type(e).__name__}", f"malformed file: {e!r}"))
-        else:
-            w.impl = klass.from_string(init, autosave=m.autosave, **kw)
+    w.impl = None
+    try:
+        if bind == "none":
+            if malformed:
+                w.impl = klass(autosave=m.autosave, **kw)
+                try:
+                    w.impl.load_string(init)
+                    w.pending.append(("load_string:no_error:ValueError", "a malformed line was accepted by load_string"))
+                    w.dirty = True
+                except ValueError:
+                    pass
+                except Exception as e:  # noqa: BLE001
+                    w.pending.append((f"load_string:raises:{type(e).__name__}", f"malformed file: {e!r}"))
+                    w.dirty = True
+            else:
+                w.impl = klass.from_string(init, autosave=m.autosave, **kw)
+                m.load_bytes(init)
+        elif bind == "file":
+            if malformed:
+                raise HarnessError("bound roots start from well-formed files")
+            w.vm.external_write(w.path, init, True)
+            w.impl = klass(w.path, autosave=m.autosave, **kw)
+            m.bound = True
             m.load_bytes(init)
-    elif bind == "file":
-        if malformed:
-            raise HarnessError("bound roots start from well-formed files")
-        w.vm.external_write(w.path, init, True)
-        w.impl = klass(w.path, autosave=m.autosave, **kw)
-        m.bound = True
-        m.load_bytes(init)
-        m.disk = m.snapshot_of(init)
-        m.loaded_mt = w.vm.getmtime(w.path)
-    elif bind == "new":
-        w.impl = klass(w.path, new=True, autosave=m.autosave, **kw)
-        m.bound = True
-    else:
-        raise HarnessError(f"bind={bind}")
+            m.disk = m.snapshot_of(init)
+            m.loaded_mt = w.vm.getmtime(w.path)
+        elif bind == "new":
+            w.impl = klass(w.path, new=True, autosave=m.autosave, **kw)
+            m.bound = True
+        else:
+            raise HarnessError(f"bind={bind}")
+    except HarnessError:
+        raise
+    except Exception as e:  # noqa: BLE001
+        w.impl = None
+        w.dirty = True
+        w.pending.append((f"construct:raises:{type(e).__name__}",
+                          f"creating the object (initial file {cfg['init']!r}, binding {cfg['bind']}) raised {e!r}"))
     return w
 
 
@@ -1038,6 +1048,8 @@ def snap_canon(snap):
 
 def canon(w):
     m = w.model
+    if w.impl is None:
+        return ("no object",)
     cur = current_mt(w) if m.bound else None
     return (observe(w), mt_class(w.impl.mtime, cur), m.canon(), mt_class(m.loaded_mt, cur),
             snap_canon(m.disk), snap_canon(m.disk2))
@@ -1104,6 +1116,8 @@ def alphabet(cfg, quick):
 def enabled_events(w, evs):
     m = w.model
     out = []
+    if w.impl is None or w.dirty:
+        return out  # a root that could not be built / already violated is reported, not expanded
     for ev in evs:
         if ev[0] == "delrealm" and m.autosave and m.bound:
             rb = w.mat.b(w.cfg["realm"] if ev[1] == "-" else ev[1])
@@ -1279,9 +1293,12 @@ def eval_name(case):
         klass = A.HtdigestFile
     if bound:
         vm.external_write(path, init, True)
-        obj = klass(path, autosave=True, **kw)
+        made = _call(lambda: klass(path, autosave=True, **kw))
     else:
-        obj = klass.from_string(init, **kw)
+        made = _call(lambda: klass.from_string(init, **kw))
+    if made[0] == "exc":
+        return [(f"C16|{cls}|construct:raises:{type(made[1]).__name__}", f"creating the object from the 'plain' file raised {made[1]!r}")]
+    obj = made[1]
     good_user, good_realm, pw = form(mat.n["u1"]), form(mat.n["r1"]), form(mat.n["p1"])
     H = mat.fixed_hash().decode("ascii")
     user = name if field == "user" else good_user
@@ -1301,7 +1318,10 @@ def eval_name(case):
         "default_realm+set_password": lambda: obj.set_password(user, pw),
         "default_realm+users": lambda: obj.users(),
     }
-    before = (obj.to_string(), read_file(path) if bound else None)
+    b0 = _call(obj.to_string)
+    if b0[0] == "exc":
+        return [(f"C16|{cls}|export:raises:{type(b0[1]).__name__}:-", f"to_string() of the freshly loaded 'plain' file raised {b0[1]!r}")]
+    before = (b0[1], read_file(path) if bound else None)
     r = _call(calls[meth])
     after = (_call(obj.to_string), read_file(path) if bound else None)
     raised = r[0] == "exc"
@@ -1348,6 +1368,11 @@ def eval_name(case):
                     ok = _call(lambda: obj2.check_password(*([user] + ([realm] if cls == "htdigest" else []) + [pw])))
                     if ok != ("ret", True):
                         problems.append(f"after a reload check_password gives {ok!r}")
+        if problems and grp != "simple":
+            # is it this kind of name, or does the same happen with an ordinary one?
+            ctl = eval_name(dict(case, name="ab", name_class="simple", name_group="simple", verdict="accept"))
+            if any(":accepted_name_not_faithful:" in k for k, _d in ctl):
+                grp = "any_name"
         if problems:
             out.append((f"{comp}|{mgrp}:{field}:accepted_name_not_faithful:{grp}",
                         f"{meth} accepted the {field} name {core.short(name, 40)} ({ncls}) but {'; '.join(problems[:2])}"))
@@ -1420,7 +1445,11 @@ def eval_default(case):
         return out
     if r is not False:
         bad("set_password:return", f"returned {r!r} for a new user")
-    text = ht.to_string()
+    r = _call(ht.to_string)
+    if r[0] == "exc":
+        bad(f"export:raises:{type(r[1]).__name__}", f"to_string() raised {r[1]!r}")
+        return out
+    text = r[1]
     _items, first, counts, badl = read_db(text, 2)
     if badl or list(first) != [b"someuser"] or counts[b"someuser"] != 1:
         bad("export", f"to_string() = {core.short(text, 100)} does not hold exactly the one user")
@@ -1428,7 +1457,11 @@ def eval_default(case):
     h = first[b"someuser"].decode("ascii", "replace")
     ident = A.htpasswd_context.identify(h)
     tag = "" if ident == (A.htpasswd_defaults.get(scheme, scheme) or "apr_md5_crypt") else f":hash_identified_as:{ident}"
-    for obj, where in ((ht, "same object"), (A.HtpasswdFile.from_string(text), "reloaded export")):
+    again = _call(lambda: A.HtpasswdFile.from_string(text))
+    if again[0] == "exc":
+        bad(f"reload:raises:{type(again[1]).__name__}", f"from_string(to_string()) raised {again[1]!r}")
+        return out
+    for obj, where in ((ht, "same object"), (again[1], "reloaded export")):
         for p, want in ((pw, True), (other, False)):
             r = _call(lambda: obj.check_password("someuser", p))
             if r[0] == "exc":
